@@ -365,4 +365,58 @@ v("c08-old-close-before-swap", "C08", "C08.c", [(CKP, "\told := c.fsm.pebble.Swa
 v("c08-second-escaping-closure", "C08", "C08.d", [(QRY, "\tsingle, err := singleLookup(reader, req)\n\tif err != nil {\n\t\treturn nil, err\n\t}\n\treturn iter.From(single), nil", "\treturn func(yield func(*regattapb.ResponseOp_Range) bool) {\n\t\tsingle, err := singleLookup(reader, req)\n\t\tif err == nil {\n\t\t\tyield(single)\n\t\t}\n\t}, nil")], "a second lazily evaluated closure over the reader: must be a VIOLATION next to the known finding K1")
 v("c08-n-save-header-local", "C08", "none", [(FSM, "\tr := p.getRecoverer(p.recoveryType)\n\tif err := binary.Write(w, binary.LittleEndian, r.getHeader()); err != nil {", "\tr := p.getRecoverer(p.recoveryType)\n\thdr := r.getHeader()\n\tif err := binary.Write(w, binary.LittleEndian, hdr); err != nil {")])
 
+
+
+# ---------------- rules added after the second round of sub-agent changes ----------------
+v("c05-sequence-not-cleared", "C05", "C05.b", [(WRK, "\t\t\tseq.Sequence = seq.Sequence[:0]\n\t\t\tseq.LeaderIndex = nil", "\t\t\tseq.LeaderIndex = nil")], "agent change C05-m1")
+v("c05-n-clear-after-propose-in-loop", "C05", "none", [(WRK, "\t\t\tseq.Sequence = seq.Sequence[:0]\n\t\t\tseq.LeaderIndex = nil", "\t\t\tseq.LeaderIndex = nil"), (WRK, "\t\t\tlastApplied = c.LeaderIndex\n", "\t\t\tlastApplied = c.LeaderIndex\n\t\t\tseq.Sequence = seq.Sequence[:0]\n")], "the clear moves from the deferred closure into the loop, right after the successful proposal")
+v("c05-cache-put-unguarded", "C05", "C05.d4", [("storage/logreader/logreader.go", "\t\t\tif le[0].Index-1 == sh.largestIndex() {\n\t\t\t\tsh.put(le)\n\t\t\t}", "\t\t\tsh.put(le)")], "agent change C05-m3")
+v("c07-batch-not-truncated", "C07", "C07.a", [(MGR, "\t\tbatchCmd.LeaderIndex = nil\n\t\tbatchCmd.Batch = batchCmd.Batch[:0]\n", "\t\tbatchCmd.LeaderIndex = nil\n")])
+v("c08-save-name-without-sync", "C08", "C08.c2", [("pebble/dir.go", "\tif err = f.Sync(); err != nil {\n\t\treturn err\n\t}\n\treturn nil\n}\n\n// GetCurrentDBDirName", "\treturn nil\n}\n\n// GetCurrentDBDirName")], "agent change C08-m2")
+KVMAP = "storage/kv/map.go"
+v("c13-listdir-string-prefix-only", "C13", "C13.g", [(KVMAP, "\t\t\tif samePrefixTerms(prefix, items) && (len(items)-len(prefix) >= 1) {", "\t\t\tif len(items)-len(prefix) >= 1 {")], "agent change C13-m3")
+v("c13-lookup-deletes", "C13", "C13.g", [(KVMAP, "func (s *MapStore) Exists(key string) (bool, error) {\n\ts.mtx.RLock()\n\tdefer s.mtx.RUnlock()", "func (s *MapStore) Exists(key string) (bool, error) {\n\ts.mtx.Lock()\n\tdefer s.mtx.Unlock()\n\tif key == \"\" {\n\t\tdelete(s.m, key)\n\t}")])
+v("c13-n-listdir-guard-split", "C13", "none", [(KVMAP, "\t\t\tif samePrefixTerms(prefix, items) && (len(items)-len(prefix) >= 1) {\n\t\t\t\tm[items[len(prefix):][0]] = true\n\t\t\t}", "\t\t\tif !samePrefixTerms(prefix, items) {\n\t\t\t\tcontinue\n\t\t\t}\n\t\t\tif len(items) > len(prefix) {\n\t\t\t\tm[items[len(prefix)]] = true\n\t\t\t}")])
+v("c14-restore-name-unchecked", "C14", "C14.g", [(MGR, "func (m *Manager) Restore(name string, reader io.Reader) error {\n\tif err := validateTableName(name); err != nil {\n\t\treturn err\n\t}\n", "func (m *Manager) Restore(name string, reader io.Reader) error {\n")])
+v("c14-validator-wrong-separator", "C14", "C14.g", [(MGR, "\tif strings.Contains(name, \"/\") {\n\t\treturn serrors.ErrInvalidTableName", "\tif strings.Contains(name, \"\\\\\") {\n\t\treturn serrors.ErrInvalidTableName")])
+v("c14-n-validate-in-caller", "C14", "none", [(MGR, "func (m *Manager) createTable(name string) (Table, error) {\n\tif err := validateTableName(name); err != nil {\n\t\treturn Table{}, err\n\t}\n", "func (m *Manager) createTable(name string) (Table, error) {\n"), (MGR, "func (m *Manager) CreateTable(name string) (Table, error) {\n", "func (m *Manager) CreateTable(name string) (Table, error) {\n\tif err := validateTableName(name); err != nil {\n\t\treturn Table{}, err\n\t}\n")], "the check moves to the only caller")
+v("c14-n-inline-separator-test", "C14", "none", [(MGR, "func (m *Manager) Restore(name string, reader io.Reader) error {\n\tif err := validateTableName(name); err != nil {\n\t\treturn err\n\t}\n", "func (m *Manager) Restore(name string, reader io.Reader) error {\n\tif strings.ContainsRune(name, '/') {\n\t\treturn serrors.ErrInvalidTableName\n\t}\n")])
+
+# ---------------- behaviour-preserving refactorings written by sub-agents (neutral/<set>/<n>/patch.diff) ----------------
+def vp(id, prop, expect, patches, note=""):
+    V.append({"id": id, "prop": prop, "expect": expect, "note": note, "edits": [], "patch": patches})
+
+NEUTRAL = {
+    'neutral/setA/n1': ['C01', 'C02', 'C03', 'C04', 'C07', 'C08', 'C10', 'C11', 'C12', 'C14', 'C16'],
+    'neutral/setA/n10': ['C04'],
+    'neutral/setA/n11': ['C12'],
+    'neutral/setA/n12': ['C02', 'C09', 'C10', 'C14', 'C16'],
+    'neutral/setA/n2': ['C01', 'C02', 'C04', 'C07', 'C08', 'C10', 'C11', 'C12', 'C14', 'C16'],
+    'neutral/setA/n3': ['C01', 'C02', 'C03', 'C04', 'C07', 'C08', 'C10', 'C11', 'C12', 'C14', 'C16'],
+    'neutral/setA/n4': ['C01', 'C03', 'C04', 'C05', 'C12'],
+    'neutral/setA/n5': ['C01', 'C03', 'C04', 'C09', 'C10', 'C12'],
+    'neutral/setA/n6': ['C02'],
+    'neutral/setA/n7': ['C01', 'C08', 'C09', 'C16'],
+    'neutral/setA/n8': ['C07', 'C09', 'C18'],
+    'neutral/setA/n9': ['C03', 'C04', 'C08'],
+    'neutral/setB/n1': ['C11'],
+    'neutral/setB/n10': ['C17'],
+    'neutral/setB/n11': ['C18'],
+    'neutral/setB/n12': ['C05', 'C07', 'C14', 'C15'],
+    'neutral/setB/n2': ['C05', 'C06'],
+    'neutral/setB/n3': ['C06'],
+    'neutral/setB/n4': ['C05', 'C07', 'C14', 'C15'],
+    'neutral/setB/n5': ['C13', 'C16'],
+    'neutral/setB/n6': ['C19'],
+    'neutral/setB/n7': ['C02', 'C09', 'C10', 'C11', 'C16'],
+    'neutral/setB/n8': ['C05', 'C06', 'C07', 'C10'],
+    'neutral/setB/n9': ['C05', 'C15', 'C18'],
+}
+for d, props in NEUTRAL.items():
+    for p in props:
+        vp("%s-%s-%s" % (p.lower(), d.split('/')[1].lower(), d.split('/')[2]), p, "none", [d + "/patch.diff"], "neutral refactoring " + d)
+
+# parent of fix F9 (reverse of /repo commit 9c3d1c6)
+vp("c14-f9-parent", "C14", "C14.g", ["selftest/patches/f9-parent.diff"], "parent of fix F9: table names containing '/'")
+
 json.dump(V, sys.stdout, indent=1)
